@@ -32,6 +32,7 @@ class Gen:
         self.rng, self.w, self.malformed, self.offgrid, self.span = rng, weights, malformed, offgrid, span
         self.axes = None
         self.num = {}
+        self.recent = {}   # last value produced per kind: re-used so that "same value again after a change" is exercised
 
     # ---- values
     def coord(self, axis=None):
@@ -47,7 +48,16 @@ class Gen:
         return show(Fraction(r.randint(-self.span * G, self.span * G), G))
 
     def scalar(self, kind=None, lo=0, hi=2000):
+        v = self._scalar(kind, lo, hi)
+        if kind in self.recent and self.rng.random() < 0.25:
+            return self.recent[kind]
+        self.recent[kind] = v
+        return v
+
+    def _scalar(self, kind=None, lo=0, hi=2000):
         r = self.rng
+        if r.random() < 0.06:
+            return "0"
         if r.random() < self.malformed:
             return r.choice(["nan", "inf", "-inf", "-1", "-1/32"])
         if kind in self.num and r.random() < 0.5:
@@ -113,7 +123,8 @@ class Gen:
         return "enter " + self.rng.choice(["rel", "abs"])
 
     def g_exit(self):
-        return "exit"
+        # leaving the context normally or because the body raised (the managers restore in a `finally`)
+        return self.rng.choice(["exit", "exit", "exitraise"])
 
     def g_feed(self):
         return "feed " + self.scalar("feed-rate", 1, 3000)
